@@ -50,6 +50,8 @@ impl Violation {
 #[derive(Default, Clone)]
 pub struct Acc {
     pub counters: BTreeMap<String, u64>,
+    /// maxima over runs (e.g. longest conversation), merged with max
+    pub maxima: BTreeMap<String, u64>,
     pub distinct: BTreeSet<u64>,
     pub distinct2: BTreeSet<u64>,
     pub samples: Vec<Value>,
@@ -65,6 +67,10 @@ pub struct Acc {
 impl Acc {
     pub fn count(&mut self, key: &str, n: u64) {
         *self.counters.entry(key.to_string()).or_insert(0) += n;
+    }
+    pub fn max(&mut self, key: &str, n: u64) {
+        let e = self.maxima.entry(key.to_string()).or_insert(0);
+        *e = (*e).max(n);
     }
     /// digest of everything a run observed (determinism proof for checks without a transport log)
     pub fn digest(&self) -> u64 {
@@ -86,8 +92,20 @@ impl Acc {
         for (k, v) in o.counters {
             *self.counters.entry(k).or_insert(0) += v;
         }
-        self.distinct.extend(o.distinct);
-        self.distinct2.extend(o.distinct2);
+        for (k, v) in o.maxima {
+            let e = self.maxima.entry(k).or_insert(0);
+            *e = (*e).max(v);
+        }
+        // the sets are capped (memory): beyond the cap the distinct counts are lower bounds
+        const CAP: usize = 4_000_000;
+        if self.distinct.len() < CAP {
+            self.distinct.extend(o.distinct);
+        } else {
+            *self.counters.entry("distinct_set_saturated".to_string()).or_insert(0) += 1;
+        }
+        if self.distinct2.len() < CAP {
+            self.distinct2.extend(o.distinct2);
+        }
         for s in o.samples {
             if self.samples.len() < 3 {
                 self.samples.push(s);
@@ -224,7 +242,7 @@ pub fn run_limit_s(tier: Tier) -> u64 {
         .ok()
         .and_then(|s| s.parse().ok())
         .unwrap_or(match tier {
-            Tier::Quick => 900,
+            Tier::Quick => 600,
             Tier::Thorough => 3600,
         })
 }
@@ -308,8 +326,11 @@ pub fn run_batch(prop: &dyn Property, tier: Tier, seed: u64, n_runs: usize, know
                     let mut acc = Acc::default();
                     slots[my_slot].1.store(start.elapsed().as_millis() as usize, Ordering::SeqCst);
                     slots[my_slot].0.store(i + 1, Ordering::SeqCst);
+                    let t_run = Instant::now();
                     let v = prop.run(rs, tier, &mut acc);
                     slots[my_slot].0.store(0, Ordering::SeqCst);
+                    // wall-clock is observed outside the run and only reported (not part of any digest)
+                    acc.max("wall_ms_of_slowest_run", t_run.elapsed().as_millis() as u64);
                     if v.is_some() && std::env::var("VERIF_COLLECT").is_err() {
                         // later runs are not needed: the first violation in index order wins
                         stop_at.fetch_min(i, Ordering::SeqCst);
@@ -449,6 +470,7 @@ pub fn write_evidence(
             "probes": probes,
             "probes_at_zero": zero_probes,
             "counters": acc.counters,
+            "maxima": acc.maxima,
             "event_log_hash": format!("{:016x}", acc.log_hash),
             "workers": workers(),
             "real_components": meta.real_components,
